@@ -206,6 +206,13 @@ fn clvm_tree_to_lazy_node(obj: Bound<'_, PyAny>) -> PyResult<LazyNode> {
         },
     }
 
+    // The identity map is keyed on object addresses. Objects whose `.pair`
+    // builds fresh children on every access (e.g. LazyNode) would otherwise be
+    // freed as soon as they have been visited, and their address could be
+    // reused by a different node. Keep every visited object alive until the
+    // whole tree has been converted.
+    let mut keep_alive: Vec<Bound<'_, PyAny>> = Vec::new();
+
     let root_ptr = obj.as_ptr() as usize;
     let mut stack: Vec<WorkItem<'_>> = vec![WorkItem::Visit(obj)];
 
@@ -217,6 +224,7 @@ fn clvm_tree_to_lazy_node(obj: Bound<'_, PyAny>) -> PyResult<LazyNode> {
                 if identity_map.contains_key(&id) {
                     continue;
                 }
+                keep_alive.push(pyobj.clone());
 
                 let atom_val: Option<Vec<u8>> = pyobj.getattr("atom")?.extract()?;
 
